@@ -363,11 +363,19 @@ fn run_solve(case: &Value) -> Value {
         .with_heuristic(Box::new(ScriptedHeuristic(log.clone())))
         .with_objective(obj)
         .with_context(context)
-        .with_max_generations(Some(case["gens"].as_u64().unwrap() as usize))
-        .with_initial(init_max, 0.05, vec![(Box::new(ScriptedInitial(log.clone())), 1)])
-        .with_init_solutions(init.iter().map(ind).collect(), None)
-        .build()
-        .expect("cannot build evolution config");
+        .with_max_generations(Some(case["gens"].as_u64().unwrap() as usize));
+    // both orders of the two builder calls that configure the initial population (the command line tool sets the given
+    // solutions first and the `evolution.initial` section of a configuration file afterwards): the order must not matter
+    let config = if rseed % 2 == 0 {
+        config
+            .with_initial(init_max, 0.05, vec![(Box::new(ScriptedInitial(log.clone())), 1)])
+            .with_init_solutions(init.iter().map(ind).collect(), None)
+    } else {
+        config
+            .with_init_solutions(init.iter().map(ind).collect(), None)
+            .with_initial(init_max, 0.05, vec![(Box::new(ScriptedInitial(log.clone())), 1)])
+    };
+    let config = config.build().expect("cannot build evolution config");
     let (solutions, _) = EvolutionSimulator::new(config).expect("simulator").run().expect("evolution run failed");
 
     let log = log.lock().unwrap();
